@@ -33,7 +33,7 @@ LEVEL = "model_checking"
 META = {
     "text": "TLC exhausts spec/FileStream.tla (fileStream.stream loop branches + LineReader + TailPath/doPatternGlob over a "
             "path->inode->bytes filesystem) against Expected(history) for every history of <=5 (thorough 7) operations over "
-            "{line, fragment, CRLF line, truncate, rename+create, copy+truncate, delete, recreate, nop} from 4 initial file "
+            "{line, fragment, CRLF line, truncate, rename+create (empty / with a first line), copy+truncate, delete, recreate, nop} from 4 initial file "
             "states, and every history of <=4 (thorough 6) operations plus simulated 40-operation ones is replayed on the real "
             "filesystem against the real Tailer/fileStream with deterministic waker barriers, comparing delivered lines, "
             "logstreams, goroutine counts and expvar counters after every step.",
@@ -44,11 +44,11 @@ META = {
     "design_ref": "DESIGN.md 5/C16, Appendix A.2",
 }
 
-OPS = ["line", "frag", "crlf", "trunc", "rotate", "copytrunc", "delete", "recreate", "nop"]
+OPS = ["line", "frag", "crlf", "trunc", "rotate", "rotatew", "copytrunc", "delete", "recreate", "nop"]
 PRE = ["absent", "empty", "line", "frag"]
 DEVS = ["DEV_FinishKeepsBuffer", "DEV_RotationDropsFragment"]
 INVS = ["TypeOK", "ExactlyOnce", "NeverWrong", "TracksCurrent", "PendingIsBuffer", "CountersOK"]
-END_OPS = ("trunc", "rotate", "copytrunc", "delete", "stop")
+END_OPS = ("trunc", "rotate", "rotatew", "copytrunc", "delete", "stop")
 
 
 def _cfg(maxops, devs=(), emit=False, view=True, invs=None, minops=0, pre=PRE, props=True, script=""):
